@@ -432,7 +432,7 @@ func (x *exec) binop(st *pstate, in *ssa.BinOp) Val {
 
 func (x *exec) strConcat(st *pstate, a, b *smt.Term) *smt.Term {
 	// an opaque string with the right length and content
-	r := x.env.Fresh("concat", StrSort)
+	r := x.env.FreshVal("concat", StrSort)
 	la, lb := StrLen(a), StrLen(b)
 	st.assume(smt.Eq(StrLen(r), smt.BVAdd(la, lb)), "concat length")
 	st.assume(smt.BVUle(StrLen(r), maxLen), "concat length bound")
@@ -789,12 +789,16 @@ func (x *exec) doReturn(st *pstate, in *ssa.Return) {
 		x.emit(st, name, "post", goal, in.Pos(), "postcondition "+e.Text)
 	}
 	for _, b := range x.c.C.Behaviors {
-		ev := x.evalAt(st, sc)
+		bsc := sc.push()
+		for k, v := range x.behScope[b.Name].vars {
+			bsc.vars[k] = v
+		}
+		ev := x.evalAt(st, bsc)
 		var as []*smt.Term
 		for _, a := range b.Assumes {
 			ev.Pos = a.Pos
 			// behaviours speak about the entry state
-			as = append(as, ev.with(x.old).inScope(x.entry).Bool(a.E))
+			as = append(as, ev.with(x.old).inScope(x.behScope[b.Name]).Bool(a.E))
 		}
 		for i, e := range b.Ensures {
 			ev.Pos = e.Pos
